@@ -54,6 +54,12 @@ func c18DKinds(ssize int64) [][2]interface{} {
 			out = append(out, [2]interface{}{"flip-blocks", m})
 		}
 	}
+	if nb > 0 && nb <= 5 && ssize >= 3 {
+		// edits that keep each block's weak (rolling) hash: only the strong hash differs
+		for _, m := range []int{1, 1 << uint(nb-1), 1<<uint(nb) - 1} {
+			out = append(out, [2]interface{}{"weakkeep-blocks", m})
+		}
+	}
 	if nb >= 2 {
 		for b := 0; b < nb; b++ {
 			out = append(out, [2]interface{}{"delete-block", b}, [2]interface{}{"dup-block", b})
@@ -247,6 +253,20 @@ func c18Run(c lib.Case, env *lib.Env) lib.Result {
 			if s.Arg&(1<<uint(b)) != 0 {
 				blk := blockOf(D, b)
 				blk[r.Intn(len(blk))] ^= 0x01
+			}
+		}
+	case "weakkeep-blocks":
+		D = append([]byte(nil), S...)
+		for b := 0; b < nbS; b++ {
+			if s.Arg&(1<<uint(b)) == 0 {
+				continue
+			}
+			blk := blockOf(D, b)
+			for o := r.Intn(len(blk)/2 + 1); o+3 <= len(blk); o++ {
+				if blk[o] < 255 && blk[o+1] >= 2 && blk[o+2] < 255 {
+					blk[o], blk[o+1], blk[o+2] = blk[o]+1, blk[o+1]-2, blk[o+2]+1
+					break
+				}
 			}
 		}
 	case "delete-block":
@@ -637,7 +657,7 @@ func init() {
 	lib.Register(&lib.Property{
 		ID:          "C18",
 		Level:       "exploration",
-		Rule:        "signed content S of {0,1,B-1,B,B+1,2B,2B+77,5B} bytes; written data D = S, every block-aligned prefix, non-aligned prefixes, S with one flipped bit in every non-empty subset of its blocks (<=5 blocks), one block deleted / duplicated / two adjacent swapped (a wrong block then equals the next signed block), S extended by {1,B-1,B,B+1}; write slicings {1 (small S), 7, 4096, B-1, B, B+1, 2B+5, all, random}; modes: error (driver stops after a failed Write and Closes; or ignores the error and keeps writing), wound (raw and through AggregateWounds). A second lifetime of the same file in the same pool (after a complete good or bad first one) is judged the same way. The same (S, D) classes are also written the patcher's way: through a pool bowl whose output pool is the validating pool, by its entry writer (Resume(nil), Write.., Finalize, Close, Tell checked) and by Transpose out of a target pool holding D (plain and short-reading). The inner pool records every byte it receives. Oracle: block-wise comparison against S by the harness. distinct = distinct (|S|, D kind, slicing, mode)",
+		Rule:        "signed content S of {0,1,B-1,B,B+1,2B,2B+77,5B} bytes; written data D = S, every block-aligned prefix, non-aligned prefixes, S with one flipped bit in every non-empty subset of its blocks (<=5 blocks), S with a +1/-2/+1 edit (weak hash of the block unchanged) in the first / last / every block, one block deleted / duplicated / two adjacent swapped (a wrong block then equals the next signed block), S extended by {1,B-1,B,B+1}; write slicings {1 (small S), 7, 4096, B-1, B, B+1, 2B+5, all, random}; modes: error (driver stops after a failed Write and Closes; or ignores the error and keeps writing), wound (raw and through AggregateWounds). A second lifetime of the same file in the same pool (after a complete good or bad first one) is judged the same way. The same (S, D) classes are also written the patcher's way: through a pool bowl whose output pool is the validating pool, by its entry writer (Resume(nil), Write.., Finalize, Close, Tell checked) and by Transpose out of a target pool holding D (plain and short-reading). The inner pool records every byte it receives. Oracle: block-wise comparison against S by the harness. distinct = distinct (|S|, D kind, slicing, mode)",
 		Assumptions: []string{"blocks beyond the signed block count are only required to be wounds, their ranges are not judged", "with the aggregating filter a beyond-signed wound may be merged into a preceding wound"},
 		Cases:       c18Cases,
 		Run:         c18Run,
